@@ -11,9 +11,14 @@
 (* evaluated under (ic, dia): IgnoreCase and the dialect net/re2/ecma.     *)
 (*   InClass(r) = ((r in ranges \/ cats \/ shorthands \/ posix) # neg)     *)
 (*                /\ ~InClass(r, sub)                                      *)
-(* Under IgnoreCase a range contains r iff it contains r or one of its     *)
-(* simple case images (the domain is restricted by the caller to where     *)
-(* case folding has one agreed meaning).                                   *)
+(* Under IgnoreCase every part that is a set of RANGES (written ranges,    *)
+(* POSIX names and their complements, and - outside the default dialect -  *)
+(* the shorthands, which RE2/ECMAScript define as ASCII ranges) denotes    *)
+(* its closure under simple case folding: it contains r iff it contains a  *)
+(* member of FoldSet(r) = the simple case-fold orbit of r (plus U+0130,    *)
+(* whose lower case is i, for i and I).  Parts that are Unicode categories *)
+(* (\p{..}, the default dialect's \d \w \s) are not folded, except that   *)
+(* \p{Lu}, \p{Ll} and \p{Lt} each mean "cased letter" (Lu, Ll or Lt).      *)
 (***************************************************************************)
 EXTENDS Integers, Sequences, FiniteSets, Unicode
 
@@ -48,16 +53,21 @@ PosixRs(n) ==
     [] n = "word"   -> << <<48,57>>, <<65,90>>, <<95,95>>, <<97,122>> >>
     [] n = "xdigit" -> << <<48,57>>, <<65,70>>, <<97,102>> >>
 
+\* under IgnoreCase the three cased-letter categories each denote all cased letters (documented .NET behaviour);
+\* every other category, script or property is taken as written
+CatIn(n, c, ic) == IF ic /\ n \in {"Lu", "Ll", "Lt"} THEN InU("Lu", c) \/ InU("Ll", c) \/ InU("Lt", c) ELSE InU(n, c)
+
+\* the runes whose presence in a range part puts c into its IgnoreCase closure
+FoldSet(c) == Orbit(c) \cup (IF c = 105 \/ c = 73 THEN {304} ELSE {})
+
 RECURSIVE InClass(_,_,_,_)
 InClass(c, cls, ic, dia) ==
-  LET inr(x) == InRs(x, cls.rs)
-      base == \/ (IF ic THEN inr(c) \/ inr(ToLower(c)) \/ inr(ToUpper(c)) ELSE inr(c))
-              \/ \E k \in 1..Len(cls.cats)  : InU(cls.cats[k].n, c) # cls.cats[k].neg
-              \/ \E k \in 1..Len(cls.shs)   : ShIn(cls.shs[k], c, dia)
-              \/ \E k \in 1..Len(cls.posix) :
-                   LET hit == IF ic THEN InRs(c, PosixRs(cls.posix[k].n)) \/ InRs(ToLower(c), PosixRs(cls.posix[k].n)) \/ InRs(ToUpper(c), PosixRs(cls.posix[k].n))
-                              ELSE InRs(c, PosixRs(cls.posix[k].n))
-                   IN hit # cls.posix[k].neg
+  LET F == IF ic THEN FoldSet(c) ELSE {c}
+      base == \/ \E e \in F : InRs(e, cls.rs)
+              \/ \E k \in 1..Len(cls.cats)  : CatIn(cls.cats[k].n, c, ic) # cls.cats[k].neg
+              \/ \E k \in 1..Len(cls.shs)   : IF dia = "net" THEN ShIn(cls.shs[k], c, dia)
+                                                ELSE \E e \in F : ShIn(cls.shs[k], e, dia)
+              \/ \E k \in 1..Len(cls.posix) : \E e \in F : InRs(e, PosixRs(cls.posix[k].n)) # cls.posix[k].neg
   IN (base # cls.neg) /\ (cls.sub = <<>> \/ ~InClass(c, cls.sub[1], ic, dia))
 
 \* every code point at which the membership function of the class can change value
@@ -65,6 +75,7 @@ RECURSIVE Breaks(_,_)
 Breaks(cls, dia) ==
   LET ends(rs) == UNION {{rs[k][1], rs[k][2]} : k \in 1..Len(rs)}
       tabs == {cls.cats[k].n : k \in 1..Len(cls.cats)}
+              \cup (IF \E k \in 1..Len(cls.cats) : cls.cats[k].n \in {"Lu", "Ll", "Lt"} THEN {"Lu", "Ll", "Lt"} ELSE {})
               \cup (IF dia = "net" /\ (\E k \in 1..Len(cls.shs) : cls.shs[k] \in {"d", "D"}) THEN {"Nd"} ELSE {})
               \cup (IF dia = "net" /\ (\E k \in 1..Len(cls.shs) : cls.shs[k] \in {"w", "W"}) THEN {"L", "Mn", "Nd", "Pc"} ELSE {})
               \cup (IF dia = "net" /\ (\E k \in 1..Len(cls.shs) : cls.shs[k] \in {"s", "S"}) THEN {"IsSpace"} ELSE {})
